@@ -37,6 +37,15 @@ class InjectedFault(RuntimeError):
     """'That callee raised': injected on entry to the k-th traced call."""
 
 
+# the same fault as other exception classes a callee may legitimately raise: typed handlers in the code under test
+# (except FileNotFoundError / IndexError / NameError / AttributeError / ValueError / TypeError ...) see them too
+EXC_KINDS = {"RuntimeError": InjectedFault}
+for _base in (ValueError, TypeError, KeyError, IndexError, AttributeError, NotImplementedError, FileNotFoundError, MemoryError,
+              AssertionError, OSError):
+    EXC_KINDS[_base.__name__] = type("Injected" + _base.__name__, (_base,), {"__doc__": "injected callee failure"})
+INJECTED = tuple(EXC_KINDS.values())
+
+
 # ------------------------------------------------------------------ call-boundary fault seam
 
 class CallSeam:
@@ -46,6 +55,7 @@ class CallSeam:
         self.prefixes = prefixes
         self.count = 0
         self.k = None
+        self.exc = InjectedFault
         self.fired = None
         self.marks: list[int] = []
 
@@ -63,11 +73,12 @@ class CallSeam:
                     self.marks.append(c)
                 if c == self.k:
                     self.fired = f"{os.path.basename(fn)}:{frame.f_code.co_name}"
-                    raise InjectedFault(f"injected at call #{c} ({self.fired})")
+                    raise self.exc(f"injected at call #{c} ({self.fired})")
         return None
 
-    def start(self, k):
+    def start(self, k, exc="RuntimeError"):
         self.count, self.k, self.fired, self.marks = 0, k, None, []
+        self.exc = EXC_KINDS.get(exc, InjectedFault)
         sys.settrace(self._trace)
 
     def stop(self):
@@ -330,14 +341,14 @@ class Runtime:
                     for kw in ({"ir_version": 8}, {"io_types": FLOAT}, {"opset_version": 17}, {"opset_version": 21, "io_types": FLOAT}):
                         try:
                             f.to_model_proto(**kw)
-                        except InjectedFault:
+                        except INJECTED:
                             raise
                         except Exception:  # noqa: BLE001
                             pass
                 for tag, call in calls:
                     try:
                         d = _sha(call().SerializeToString(deterministic=True))
-                    except InjectedFault:
+                    except INJECTED:
                         raise
                     except Exception as e:  # noqa: BLE001
                         d = f"EXC:{type(e).__name__}"
@@ -455,6 +466,18 @@ class Runtime:
             m = self._as_ir(mp)
             r = self.long[key](m)
             return {"model": self._serialize(r.model), "modified": str(bool(r.modified))}
+        elif api.startswith("fw:"):
+            # the exporter-facing entry points of onnxscript._framework_apis (torch_2_5: behind an environment flag that is
+            # read at call time and set here as part of the operation; later versions: unconditional, 2_8 adds onnx_fusions)
+            import importlib
+
+            _, ver, flag = api.split(":")
+            mod = importlib.import_module("onnxscript._framework_apis." + ver)
+            os.environ["TORCH_ONNX_ENABLE_OPTIMIZATION"] = flag
+            try:
+                out = mod.optimize(self._as_ir(mp))
+            finally:
+                os.environ.pop("TORCH_ONNX_ENABLE_OPTIMIZATION", None)
         elif api == "positional":
             # options given positionally (num_iterations is the first one)
             out = opt.optimize(mp, *op.get("args", []))
@@ -528,12 +551,13 @@ class Runtime:
         elif name.startswith("ortall:"):
             import importlib
 
-            mod = importlib.import_module("onnxscript.rewriter.ort_fusions." + name.split(":", 1)[1])
             rules = []
-            for attr in sorted(dir(mod)):
-                v = getattr(mod, attr)
-                if isinstance(v, pattern.RewriteRuleSet):
-                    rules.extend(r for r in v.rules if r not in rules)
+            for mn in name.split(":", 1)[1].split(","):
+                mod = importlib.import_module("onnxscript.rewriter.ort_fusions." + mn)
+                for attr in sorted(dir(mod)):
+                    v = getattr(mod, attr)
+                    if isinstance(v, pattern.RewriteRuleSet):
+                        rules.extend(r for r in v.rules if r not in rules)
             rs = pattern.RewriteRuleSet(rules)
         elif name.startswith("ort:"):
             import importlib
@@ -595,6 +619,20 @@ class Runtime:
                 if attr.startswith("fuse_") and callable(getattr(mod, attr)):
                     counts[attr] = getattr(mod, attr)(m)
             return {"model": self._serialize(m), "counts": json.dumps(counts, sort_keys=True)}
+        if rules.startswith("user:") and ("rules", rules) not in self.long:
+            # user-written rules: their module is executed, and their patterns are built, now — after whatever this process
+            # did before — and the rule set then lives as long as the process
+            if "usermod" not in self.long:
+                import types
+
+                src = op["rules_src"]
+                fname = f"<dsim-userrules-{_sha(src.encode())}>"
+                linecache.cache[fname] = (len(src), None, src.splitlines(True), fname)
+                mod = types.ModuleType("dsim_userrules")
+                mod.__file__ = fname
+                exec(compile(src, fname, "exec"), mod.__dict__)  # noqa: S102
+                self.long["usermod"] = mod
+            self.long[("rules", rules)] = self.long["usermod"].build(rules.split(":", 1)[1])
         if rules == "default":
             if api == "proto":
                 out = rewriter.rewrite(mp)
@@ -633,7 +671,17 @@ class Runtime:
         target = op["target"]
         fallback = op.get("fallback", False)
         api = op.get("api", "proto")
-        if api == "proto":
+        if api.startswith("fw:"):
+            import importlib
+
+            _, ver, flag = api.split(":")
+            mod = importlib.import_module("onnxscript._framework_apis." + ver)
+            os.environ["TORCH_ONNX_ENABLE_VERSION_CONVERSION"] = flag
+            try:
+                out = mod.convert_version(self._as_ir(mp), target)
+            finally:
+                os.environ.pop("TORCH_ONNX_ENABLE_VERSION_CONVERSION", None)
+        elif api == "proto":
             vc.convert_version(mp, target, fallback=fallback)
             out = mp
         elif api == "ir":
@@ -658,7 +706,7 @@ class Runtime:
             name = f"{meta.qualified_name}|{getattr(f, 'name', '?')}"
             try:
                 res[name] = _sha(f.to_function_proto().SerializeToString(deterministic=True))
-            except InjectedFault:
+            except INJECTED:
                 raise
             except Exception as e:  # noqa: BLE001
                 res[name] = f"EXC:{type(e).__name__}"
@@ -671,7 +719,7 @@ class Runtime:
         count = op.get("count_calls") or fault is not None
         fn = getattr(self, "op_" + op["kind"])
         if count:
-            self.seam.start(None if fault is None else fault["k"])
+            self.seam.start(None if fault is None else fault["k"], (fault or {}).get("exc", "RuntimeError"))
         self._in_norm = self._out_norm = None
         try:
             res = fn(op)
@@ -680,7 +728,7 @@ class Runtime:
             if self._in_norm is not None and self._out_norm is not None:
                 # probe: did the operation change the model at all (rule fired / folded / converted)?
                 rec["changed"] = self._out_norm != self._in_norm
-        except InjectedFault as e:
+        except INJECTED as e:
             rec["status"] = "raised"
             rec["result"] = {"exc": "InjectedFault"}
             rec["exc_text"] = _scrub(str(e))[:200]
@@ -692,7 +740,7 @@ class Runtime:
             rec["exc_text"] = _scrub(str(e))[:200]
             chain, seen = e, 0
             while chain is not None and seen < 12:
-                if isinstance(chain, InjectedFault):
+                if isinstance(chain, INJECTED):
                     rec["exc_from_fault"] = True
                 chain = chain.__cause__ or chain.__context__
                 seen += 1
@@ -781,6 +829,7 @@ def main() -> int:
     import onnxscript.rewriter.ort_fusions.rms_normalization  # noqa: F401
     import onnxscript.rewriter.ort_fusions.softmax  # noqa: F401
     import onnxscript.rewriter.ort_fusions._core  # noqa: F401
+    from onnxscript._framework_apis import torch_2_5, torch_2_6, torch_2_8, torch_2_9  # noqa: F401
     try:  # the rule tests' model-building modules import these; import once so forked children do not
         import parameterized  # noqa: F401
         import onnxscript.rewriter.testing  # noqa: F401
